@@ -1,4 +1,5 @@
 import TF.Proofs.MerkleUnique
+import TF.Proofs.MerkleSched
 /-!
 # C10 — Merkle trees build correctly under any schedule; honest proofs are complete and minimal
 
@@ -12,8 +13,12 @@ filler, the leafs are copied to `[n, 2n)` and `nodes[i] = H nodes[2i] nodes[2i+1
 `Spec.treeNodes` is the explicit tree (`nodeVal` over the leafs).  `Spec.needed h idxs` is the documented minimal
 authentication structure: the non-root nodes that cannot be computed from the revealed leafs but whose sibling can
 (`Spec.covered` = "computable"), in descending order of node index.  `authPath H f 0 h k` is the sibling path of leaf
-node `k`.  Thread schedules are not modelled: a parallel level is a pure `map` (closures are pure, `collect_into_vec`
-preserves order) — schedule independence is argued from this and exercised by the correspondence check only.
+node `k`.  Thread schedules: `fromDigestsSched H scheds …` (TF/Model/MerkleSched.lean) runs every parallel level as rayon does
+at task granularity — one task per index, each reading the shared immutable `nodes` and writing slot `i` of the output
+buffer — in the completion order `scheds cnt`; any number of threads, any chunking and any interleaving is such an
+order, a permutation of `0..cnt`.  `from_digests_schedule_independent` proves the result equal to the pure-`map` model
+for every such schedule and every cut-off.  (Trusted: rayon runs each task exactly once and `collect_into_vec` stores
+result `i` in slot `i`; Rust's borrow rules keep `nodes` unwritten while the parallel iterator lives.)
 -/
 set_option linter.unusedSectionVars false
 namespace TF.C10
@@ -59,6 +64,31 @@ theorem from_digests_cutoff_independent (filler : D) (c c' : Nat) (ds : List D) 
       rw [e1, e2]
     · rw [fromDigests_not_pow2 H filler c he hp, fromDigests_not_pow2 H filler c' he hp]
 example : fromDigests Hx 0 0 [1, 2, 3, 4] = fromDigests Hx 0 (2^30) [1, 2, 3, 4] := from_digests_cutoff_independent Hx 0 _ _ _
+
+/-- **one parallel level gives the same result under every schedule**: whatever the order in which the tasks of a level
+    complete (any permutation of `0..cnt`: any thread count, chunking, interleaving), the level is the pure `map` -/
+theorem par_level_schedule_independent (sched : List Nat) (nodes : List D) (cnt : Nat)
+    (hp : sched.Perm (List.range cnt)) : parLevelSched H sched nodes cnt = parLevel H nodes cnt :=
+  parLevelSched_eq H sched nodes cnt hp
+example : (roundRobin 3 8).Perm (List.range 8) ∧ roundRobin 3 8 = [0, 3, 6, 1, 4, 7, 2, 5] := by decide
+
+/-- **construction gives the same result under every schedule and every cut-off**: with every parallel level running
+    under an arbitrary schedule (a permutation of its tasks), `from_digests` returns what the sequential model returns —
+    hence (by `from_digests_spec`) the tree whose every inner node is the hash of its children -/
+theorem from_digests_schedule_independent (scheds : Nat → List Nat)
+    (hs : ∀ cnt, (scheds cnt).Perm (List.range cnt)) (filler : D) (cutoff cutoff' : Nat) (ds : List D) :
+    fromDigestsSched H scheds filler cutoff ds = fromDigests H filler cutoff' ds := by
+  rw [fromDigestsSched_eq H scheds hs, from_digests_cutoff_independent H filler cutoff cutoff']
+example : fromDigestsSched Hx (roundRobin 3) 0 0 [1, 2, 3, 4, 5, 6, 7, 8] = fromDigests Hx 0 (2^30) [1, 2, 3, 4, 5, 6, 7, 8] ∧
+    fromDigestsSched Hx (roundRobin 3) 0 0 [1, 2, 3, 4, 5, 6, 7, 8]
+      = .ok ⟨[0, 2825, 193, 449, 14, 30, 46, 62, 1, 2, 3, 4, 5, 6, 7, 8]⟩ := by decide +kernel
+
+/-- a schedule that skips a task is *not* harmless (the hypothesis of the theorem is needed): `collect_into_vec` would
+    hand back an unwritten slot -/
+theorem schedule_must_cover_all_tasks :
+    parLevelSched Hx [0] [0, 0, 0, 0, 1, 2, 3, 4] 2 = .panic ∧
+    parLevel Hx [0, 0, 0, 0, 1, 2, 3, 4] 2 = .ok [0, 0, 14, 30, 1, 2, 3, 4] := by
+  decide +kernel
 
 /-- **rejection**: no leafs, or a number of leafs that is not a power of two, is an error for every cut-off; and
     conversely a tree is only ever returned for a power of two -/
